@@ -62,11 +62,16 @@ def build(case, ctx, g):
         return base
     if src == 'slice':
         big = gens.make_tt([n + 2 for n in N], R, dt, 'gauss', g, M=[m + 1 for m in M] if ttm else None)
+        style = case['seed'] % 3       # 0: strided, 1: offset + unit step (contiguous views with a storage offset), 2: mixed
+
+        def sl(k, n):
+            if style == 0 or (style == 2 and k % 2):
+                return slice(0, n + 2, 2) if n > 1 else slice(1, 2)
+            return slice(1, n + 1)
         if ttm:
-            idx = tuple(slice(1, 1 + m) for m in M) + tuple(slice(0, n + 2, 2) if n > 1 else slice(1, 2) for n in N)
-            # keep shapes valid: step slices change sizes, that is fine
+            idx = tuple(slice(1, 1 + m) for m in M) + tuple(sl(k, n) for k, n in enumerate(N))
         else:
-            idx = tuple(slice(0, n + 2, 2) if n > 1 else slice(1, 2) for n in N)
+            idx = tuple(sl(k, n) for k, n in enumerate(N))
         if d == 1 and not ttm:
             return ctx.call('getitem', lambda t: t[idx[0]], big)
         return ctx.call('getitem', lambda t: t[idx], big)
